@@ -166,7 +166,13 @@ Section Jar.
     | RSet n v => jar_set st n v
     | RDel n => jar_del st n
     | RClear => (Some [], Ok tt)
-    | RAssign ps => jar_update None ps     (* environ.pop("HTTP_COOKIE", None); RequestCookies(environ).update(val) *)
+    | RAssign ps =>
+        (* repaired (fixes/C15-4, C15-6): val = dict(val); the new header is written aside, RequestCookies({}).update(val),
+           and installed only when every name and value was accepted *)
+        match jar_update None ps with
+        | (st', Ok _) => (st', Ok tt)
+        | (_, Raise e) => (st, Raise e)
+        end
     end.
 
   Definition rrun (ops : list rop) (st : jar) : jar := fold_left (fun s o => fst (rstep s o)) ops st.
@@ -269,7 +275,10 @@ Section Jar.
     match latin1_opt (a_comment a) with Raise e => Raise e | Ok com =>
     match latin1_opt (a_samesite a) with Raise e => Raise e | Ok ss =>
     match (match ss with
-           | Some s => if a_validate a && negb (samesite_ok s) then Raise ValueError else Ok tt
+           | Some s =>
+               (* serialize_samesite: strict/lax/none under validation, any TOKEN (or nothing) without *)
+               if (if a_validate a then negb (samesite_ok s) else negb (forallb is_token s))
+               then Raise ValueError else Ok tt
            | None => Ok tt
            end) with
     | Raise e => Raise e
@@ -306,20 +315,21 @@ Section Jar.
         end
     end.
 
-  (* Response.set_cookie(name, value, …, overwrite) *)
+  (* Response.set_cookie(name, value, …, overwrite) — repaired (fixes/C15-5): the line is made first, the old cookie
+     of that name goes only once the arguments have been accepted *)
   Definition set_cookie (hl : headerlist) (a : ckargs) (overwrite : bool) : headerlist * res unit :=
-    match (if overwrite then unset_cookie hl (a_name a) false else (hl, Ok tt)) with
-    | (hl1, Raise e) => (hl1, Raise e)
-    | (hl1, Ok _) =>
-        match (match a_value a with
-               | None => Ok None
-               | Some t => match enc t with Some b => Ok (Some b) | None => Raise UnicodeEncodeError end
-               end) with
-        | Raise e => (hl1, Raise e)
-        | Ok value =>
-            match make_cookie a value with
-            | Raise e => (hl1, Raise e)
-            | Ok line => (hl1 ++ [(set_cookie_key, line)], Ok tt)
+    match (match a_value a with
+           | None => Ok None
+           | Some t => match enc t with Some b => Ok (Some b) | None => Raise UnicodeEncodeError end
+           end) with
+    | Raise e => (hl, Raise e)
+    | Ok value =>
+        match make_cookie a value with
+        | Raise e => (hl, Raise e)
+        | Ok line =>
+            match (if overwrite then unset_cookie hl (a_name a) false else (hl, Ok tt)) with
+            | (hl1, Raise e) => (hl1, Raise e)
+            | (hl1, Ok _) => (hl1 ++ [(set_cookie_key, line)], Ok tt)
             end
         end
     end.
